@@ -518,6 +518,23 @@ def _set_order(ctx, reach):
                         ctx.ok("C08b-set-order", f,
                                f"{ast.unparse(n)[:50]} on a singleton")
                         continue
+                    # ... or under the same test as a comprehension filter
+                    up, guarded = parents.get(id(n)), False
+                    while up is not None and not isinstance(up, ast.stmt):
+                        if isinstance(up, (ast.ListComp, ast.SetComp,
+                                           ast.DictComp, ast.GeneratorExp)):
+                            for g_ in up.generators:
+                                for c_ in g_.ifs:
+                                    if ast.unparse(c_) in (
+                                            f"len({et}) == 1",
+                                            f"1 == len({et})"):
+                                        guarded = True
+                        up = parents.get(id(up))
+                    if guarded:
+                        ctx.ok("C08b-set-order", f,
+                               f"{ast.unparse(n)[:50]} on a singleton "
+                               "(comprehension filter)")
+                        continue
                 key = None
                 stmt = n
                 while stmt is not None and not isinstance(stmt, ast.stmt):
